@@ -6,12 +6,14 @@ set -u
 export GOFLAGS=-mod=mod GOPROXY=off GOSUMDB=off GOTOOLCHAIN=local
 S="$1"; MODE="${2:-both}"
 SIM=${VERIF_SIM:-/verif/sim}
+BIN=${VERIF_BIN:-/verif/bin}
 REPO="${VERIF_REPO:-/repo}"
 mkdir -p "$S" || exit 2
-if [ ! -x /verif/bin/simrewrite ] || [ $SIM/tools/simrewrite/main.go -nt /verif/bin/simrewrite ]; then
-  (cd $SIM && go build -o /verif/bin/simrewrite ./tools/simrewrite) || exit 2
+mkdir -p $BIN
+if [ ! -x $BIN/simrewrite ] || [ $SIM/tools/simrewrite/main.go -nt $BIN/simrewrite ]; then
+  (cd $SIM && go build -o $BIN/simrewrite ./tools/simrewrite) || exit 2
 fi
-/verif/bin/simrewrite -src "$REPO" -dst "$S/repo" -pyield valid/cache.go >"$S/rewrite.log" 2>&1 || { cat "$S/rewrite.log" >&2; exit 2; }
+$BIN/simrewrite -src "$REPO" -dst "$S/repo" -pyield valid/cache.go >"$S/rewrite.log" 2>&1 || { cat "$S/rewrite.log" >&2; exit 2; }
 cat > "$S/go.mod" <<EOM
 module verifsim
 
@@ -38,6 +40,10 @@ if [ "$MODE" = norace ] || [ "$MODE" = both ]; then
   go build -modfile="$S/go.mod" -o "$S/simworker" ./cmd/simworker >"$S/build.log" 2>&1 &
   P2=$!
 fi
+# a 32-bit build of the plain worker (int and pointers are 32 bits wide, 64-bit fields are only 4-byte aligned): a share of the runs is repeated on it
+GOARCH=386 go build -modfile="$S/go.mod" -o "$S/simworker.386" ./cmd/simworker >"$S/build.386.log" 2>&1 &
+P3=$!
 if [ -n "${P1:-}" ]; then wait $P1 || { cat "$S/build.race.log" >&2; rc=2; }; fi
 if [ -n "${P2:-}" ]; then wait $P2 || { cat "$S/build.log" >&2; rc=2; }; fi
+wait $P3 || { echo "mkscratch: no 32-bit worker: $(head -3 "$S/build.386.log")" >&2; rm -f "$S/simworker.386"; }
 exit $rc
